@@ -1,7 +1,304 @@
 import M3d.Basic
-/-! Line-protocol handler for C04. Core-only. (stub) -/
-namespace M3d.Drv.C04
+import M3d.Model.SolidAlg
+import M3d.Model.RectSet
+/-!
+Line-protocol handler for C04.  Core-only.
 
-def handleAll (ws : List String) : Option String := none
+Kinds (tokens after `c04`):
+
+* `bool <dim> <bits>`                      — Joined / Intersected / Subtracted / a nested expression on operand answers
+* `sj <dim> <r> <d>…`, `sj2 <dim> <r> <d:nx,ny[,nz]>…`   — smooth joins: SPEC value + "every permutation agrees"
+* `sjm …`, `sj2m …`                  — the faithful closure model evaluated on every permutation (model validation)
+* `sjf <dim> <rhex> <dhex>…`, `sj2f <dim> <rhex> <dhex:…>…` — the same closure model executed on IEEE doubles
+* `opt|mux <dim> <n> <box>… <perm>… <nq> (<pt> <bits>)…`  — Optimize / SolidMux against the plain join
+* `stk <n> (<bounds> <inner>)… <nq> <pt>…`      — StackSolids / StackedSolid against the translated union
+* `rs …`                             — RectSet histories and the rect-set solid
+-/
+namespace M3d.Drv.C04
+open M3d M3d.SolidAlg
+
+def bitsOf (s : String) : Option (List Bool) :=
+  s.toList.mapM fun c => if c = '1' then some true else if c = '0' then some false else none
+
+def strOfBits (bs : List Bool) : String := String.ofList (bs.map fun b => if b then '1' else '0')
+
+/-- Permutations in lexicographic order of positions (the Go harness enumerates the same way). -/
+partial def perms {α} [Inhabited α] (l : List α) : List (List α) :=
+  if l.isEmpty then [[]] else
+  (List.range l.length).flatMap fun i => (perms (l.eraseIdx i)).map (l[i]! :: ·)
+
+def allSame (bs : List Bool) : Bool :=
+  match bs with
+  | [] => true
+  | b :: rest => rest.all (· == b)
+
+/-! ### bool -/
+
+def handleBool (ws : List String) : Option String := do
+  let [_dim, bs] := ws | none
+  let bits ← bitsOf bs
+  let n := bits.length
+  if n = 0 then none
+  -- operands are predicates on the (single) query point `()`
+  let ops : List (Unit → Bool) := bits.map fun b _ => b
+  let j := joined ops ()
+  let i := intersected ops ()
+  let ps := perms ops
+  let jp := ps.all fun p => joined p () == j
+  let ip := ps.all fun p => intersected p () == i
+  let s := if n ≥ 2 then boolStr (subtracted (ops[0]!) (ops[1]!) ()) else "-"
+  let h := n / 2
+  let x := if n ≥ 2 then
+      boolStr (joined [intersected (ops.take h), subtracted (joined (ops.drop h)) (ops[0]!)] ())
+    else "-"
+  -- the model's answers are the plain boolean formulas (Props: joined_eq_any, …)
+  let specJ := bits.any id
+  let specI := bits.all id
+  if j != specJ || i != specI then some "model-ne-spec"
+  else some s!"J={boolStr specJ} Jp={boolStr jp} I={boolStr specI} Ip={boolStr ip} S={s} X={x}"
+
+/-! ### smooth joins, exact mode -/
+
+def ptOfList {α} [Inhabited α] (l : List α) : Pt α := fun i => l.getD i default
+
+def parseDN (s : String) : Option (Rat × Pt Rat) :=
+  match s.splitOn ":" with
+  | [d, nv] => do
+      let d ← parseRat d
+      let cs ← (nv.splitOn ",").mapM parseRat
+      some (d, ptOfList cs)
+  | _ => none
+
+/-- Exact square root of a rational that is a perfect square. -/
+def ratSqrt? (q : Rat) : Option Rat :=
+  if q < 0 then none else
+  let a := q.num.toNat
+  let b := q.den
+  let ra := Nat.sqrt a
+  let rb := Nat.sqrt b
+  if ra * ra = a ∧ rb * rb = b then some ((ra : Rat) / (rb : Rat)) else none
+
+/-- Total version for the model (the harness only produces perfect squares in exact mode;
+`handleSJ2` rejects a line where that is not the case). -/
+def ratSqrt (q : Rat) : Rat := (ratSqrt? q).getD 0
+def ratAbs (q : Rat) : Rat := if q < 0 then -q else q
+
+def handleSJ (model : Bool) (ws : List String) (legacy : Bool := false) : Option String := do
+  let _dim :: r :: ds := ws | none
+  let r ← parseRat r
+  let ds ← ds.mapM parseRat
+  if ds.isEmpty then none
+  if legacy then
+    some (strOfBits ((perms ds).map fun p => legacySmoothJoin r p))
+  else if model then
+    some (strOfBits ((perms ds).map fun p => smoothJoin r p))
+  else
+    let v := smoothSpec r ds
+    some s!"V={boolStr v} P=1"
+
+/-- All pairwise `1 - (n_i·n_j)²` must be perfect squares for the exact run. -/
+def exactOK (dim : Nat) (es : List (Rat × Pt Rat)) : Bool :=
+  let zero : Pt Rat := fun _ => 0
+  let ns := zero :: es.map (·.2)
+  ns.all fun a => ns.all fun b =>
+    let c := ratAbs (dotN dim a b)
+    (ratSqrt? (1 - c * c)).isSome
+
+def handleSJ2 (model : Bool) (ws : List String) : Option String := do
+  let dim :: r :: es := ws | none
+  let dim ← dim.toNat?
+  let r ← parseRat r
+  let es ← es.mapM parseDN
+  if es.isEmpty then none
+  if !(exactOK dim es) then some "inexact-sqrt"
+  else if model then
+    some (strOfBits ((perms es).map fun p => smoothJoinV2 dim ratSqrt ratAbs r p))
+  else
+    let v := smoothSpecV2 dim ratSqrt ratAbs r es
+    some s!"V={boolStr v} P=1"
+
+/-! ### smooth joins on IEEE doubles (same operations in the same order as the Go closure) -/
+
+instance : Inhabited Float := ⟨0⟩
+
+def parseDNF (s : String) : Option (Float × Pt Float) :=
+  match s.splitOn ":" with
+  | [d, nv] => do
+      let d ← floatOfHex d
+      let cs ← (nv.splitOn ",").mapM floatOfHex
+      some (d, ptOfList cs)
+  | _ => none
+
+def handleSJF (ws : List String) : Option String := do
+  let _dim :: r :: ds := ws | none
+  let r ← floatOfHex r
+  let ds ← ds.mapM floatOfHex
+  if ds.isEmpty then none
+  some (boolStr (smoothJoin r ds))
+
+def handleSJ2F (ws : List String) : Option String := do
+  let dim :: r :: es := ws | none
+  let dim ← dim.toNat?
+  let r ← floatOfHex r
+  let es ← es.mapM parseDNF
+  if es.isEmpty then none
+  some (boolStr (smoothJoinV2 dim Float.sqrt Float.abs r es))
+
+instance : Inhabited (Box Rat) := ⟨⟨fun _ => 0, fun _ => 0⟩⟩
+instance : Inhabited (Solid Rat) := ⟨⟨default, fun _ => false⟩⟩
+
+/-! ### scenes of bounded operands: Optimize and SolidMux -/
+
+/-- `k` rationals from the front of a token list. -/
+def takeRats (k : Nat) (ws : List String) : Option (List Rat × List String) := do
+  let xs ← (ws.take k).mapM parseRat
+  if xs.length ≠ k then none else some (xs, ws.drop k)
+
+def parseBoxes (dim : Nat) : Nat → List String → Option (List (Box Rat) × List String)
+  | 0, ws => some ([], ws)
+  | k + 1, ws => do
+      let (lo, ws) ← takeRats dim ws
+      let (hi, ws) ← takeRats dim ws
+      let (rest, ws) ← parseBoxes dim k ws
+      some (⟨ptOfList lo, ptOfList hi⟩ :: rest, ws)
+
+def isPermOfRange (n : Nat) (p : List Nat) : Bool :=
+  p.length == n && (List.range n).all fun i => p.count i == 1
+
+/-- Queries: `<pt> <bits>` each; returns per query the point and the operands' answers. -/
+def parseQueries (dim n : Nat) : Nat → List String → Option (List (Pt Rat × List Bool))
+  | 0, [] => some []
+  | 0, _ => none
+  | k + 1, ws => do
+      let (p, ws) ← takeRats dim ws
+      let b :: ws := ws | none
+      let bits ← bitsOf b
+      if bits.length ≠ n then none
+      let rest ← parseQueries dim n k ws
+      some ((ptOfList p, bits) :: rest)
+
+def showNats (xs : List Nat) : String := "[" ++ ",".intercalate (xs.map toString) ++ "]"
+
+def handleScene (mux : Bool) (ws : List String) : Option String := do
+  let dim :: n :: ws := ws | none
+  let dim ← dim.toNat?
+  let n ← n.toNat?
+  if n = 0 then none
+  let (boxes, ws) ← parseBoxes dim n ws
+  let perm ← (ws.take n).mapM (·.toNat?)
+  if !(isPermOfRange n perm) then some "grouping-is-not-a-permutation"
+  else
+  let ws := ws.drop n
+  let nq :: ws := ws | none
+  let nq ← nq.toNat?
+  let qs ← parseQueries dim n nq ws
+  let outs ← qs.mapM fun (p, bits) => do
+    -- the operands' Contains at this query point are the harness-chosen answers
+    let solids : List (Solid Rat) := (List.range n).map fun i => ⟨boxes[i]!, fun _ => bits.getD i false⟩
+    let bounded := solids.all fun s => !(s.f p) || s.box.contains dim p
+    if !bounded then some "unbounded-operand"
+    else
+    let spec := bits.any id
+    if !mux then
+      let g : List (Solid Rat) → List (Solid Rat) := fun l => perm.map fun i => l[i]!
+      let t ← optimize dim g solids
+      if t.f p != spec then some "model-ne-spec" else some (boolStr spec)
+    else
+      let g : List (Nat × Solid Rat) → List (Nat × Solid Rat) := fun l => perm.map fun i => l[i]!
+      let m ← newMux g solids
+      let it := sortBy (· < ·) (m.iter dim p)
+      let specIdx := (List.range n).filter fun i => bits.getD i false
+      if m.contains dim p != spec || m.allContains dim p != bits || it != specIdx then some "model-ne-spec"
+      else some s!"{boolStr spec}:{strOfBits bits}:{showNats specIdx}:{specIdx.length}"
+  some (" ".intercalate outs)
+
+/-! ### stacks -/
+
+def handleStack (ws : List String) : Option String := do
+  let n :: ws := ws | none
+  let n ← n.toNat?
+  if n = 0 then none
+  let (boxes, ws) ← parseBoxes 3 (2 * n) ws
+  let solids : List (Solid Rat) := (List.range n).map fun i =>
+    let inner := boxes[2 * i + 1]!
+    ⟨boxes[2 * i]!, fun p => inner.contains 3 p⟩
+  let nq :: ws := ws | none
+  let nq ← nq.toNat?
+  let (cs, ws) ← takeRats (3 * nq) ws
+  if !ws.isEmpty then none
+  -- specification: union of the operands translated by the accumulated offsets
+  let deltas : List Rat := 0 :: stackOffsets ((solids[0]!).box.hi 2) (solids.drop 1)
+  let outs := (List.range nq).map fun k =>
+    let p : Pt Rat := ptOfList ((cs.drop (3 * k)).take 3)
+    let spec := translatedUnion solids deltas p
+    let m1 := joined ((stackSolids solids).map (·.f)) p
+    let m2 := stackedContains solids p
+    if m1 != spec || m2 != spec then "model-ne-spec" else boolStr spec ++ boolStr spec
+  some (" ".intercalate outs)
+
+/-! ### RectSet histories -/
+namespace RS
+open M3d.RectSet
+
+def ratsLt : List Rat → List Rat → Bool
+  | [], [] => false
+  | [], _ => true
+  | _, [] => false
+  | a :: as, b :: bs => a < b || (a == b && ratsLt as bs)
+
+def showRect (r : Rect Rat) : String := ",".intercalate ((r.lo ++ r.hi).map showRat)
+
+def showRects (rs : List (Rect Rat)) : String :=
+  ";".intercalate ((sortBy (fun a b => ratsLt (a.lo ++ a.hi) (b.lo ++ b.hi)) rs).map showRect)
+
+def showSplits (ss : List (List Rat)) : String :=
+  "|".intercalate (ss.map fun xs => ",".intercalate (xs.map showRat))
+
+partial def runOps (s : RS Rat) : Nat → List String → Option (RS Rat × List String)
+  | 0, ws => some (s, ws)
+  | k + 1, op :: ws => do
+      let (c, ws) ← takeRats 6 ws
+      let r : Rect Rat := ⟨c.take 3, c.drop 3⟩
+      let s' ← if op = "a" then some (s.add r) else if op = "r" then some (s.remove r) else none
+      runOps s' k ws
+  | _, _ => none
+
+/-- `rs <nops> (a|r <6 coords>)… <nq> (<3 coords>)…` → `R=<rects> S=<splits> Q=<answers>`;
+the answers are the SPEC (some rect of the current set contains the point). -/
+def handleRS (ws : List String) : Option String := do
+  let nops :: ws := ws | none
+  let nops ← nops.toNat?
+  let (s, ws) ← runOps RS.empty nops ws
+  let nq :: ws := ws | none
+  let nq ← nq.toNat?
+  let (cs, ws) ← takeRats (3 * nq) ws
+  if !ws.isEmpty then none
+  match build (s.rects.length + 2) s with
+  | none => some "diverges"
+  | some t =>
+    if !t.wellSplitB then some "tree-not-well-split" else
+    let outs := (List.range nq).map fun k =>
+      let p := (cs.drop (3 * k)).take 3
+      let spec := s.rects.any fun r => r.contains p
+      if t.contains p != spec then "X" else boolStr spec
+    some s!"R={showRects s.rects} S={showSplits s.splits} Q={"".intercalate outs}"
+
+end RS
+
+def handleAll (ws : List String) : Option String :=
+  match ws with
+  | "bool" :: rest => handleBool rest
+  | "sj" :: rest => handleSJ false rest
+  | "sjm" :: rest => handleSJ true rest
+  | "sjl" :: rest => handleSJ true rest true   -- the pre-repair closure (not emitted by the harness)
+  | "sj2" :: rest => handleSJ2 false rest
+  | "sj2m" :: rest => handleSJ2 true rest
+  | "sjf" :: rest => handleSJF rest
+  | "sj2f" :: rest => handleSJ2F rest
+  | "opt" :: rest => handleScene false rest
+  | "mux" :: rest => handleScene true rest
+  | "stk" :: rest => handleStack rest
+  | "rs" :: rest => M3d.Drv.C04.RS.handleRS rest
+  | _ => none
 
 end M3d.Drv.C04
